@@ -113,6 +113,15 @@ func runC01(p *Program, r *Result) {
 	// ---- R01.4
 	r.Rule("R01.4", "a stanza of another type can only produce the incorrect-identity sentinel", 4)
 	checkTypeGate(p, r)
+	r.Rule("R01.15", "an SSH stanza addressed to another key of the same type is passed over, whatever its size: no fatal error that depends on the identity stands in front of the tag comparison (= R04.3)", 2)
+	for _, nu := range nativeUnwraps {
+		if nu.keyOp == "" {
+			continue
+		}
+		if fn := r.anchor(nu.pkg, nu.recv, "unwrap"); fn != nil {
+			checkFatalBeforeTag(p, r, fn)
+		}
+	}
 
 	// ---- the locked SSH identity finds its stanza wherever it stands (= C19 R19.4)
 	r.Rule("R01.10", "an encrypted SSH identity looks at every stanza before giving up (= R19.4)", 1)
